@@ -73,7 +73,12 @@ RETRY:
 		} else if r.log.IsClosed() {
 			// The log was closed while we were trying to read.
 			return nil, 0, 0, 0, ErrCommitLogClosed
-		} else if pkgErrors.Cause(err) == ErrCommitLogReadonly && r.log.IsReadonly() {
+		} else if pkgErrors.Cause(err) == ErrCommitLogReadonly {
+			if !r.log.IsReadonly() {
+				// The log was set back to writable before we looked, so go
+				// back to waiting for data.
+				goto RETRY
+			}
 			// The log was set to readonly while we were trying to read.
 			return nil, 0, 0, 0, ErrCommitLogReadonly
 		} else if pkgErrors.Cause(err) == ErrSegmentReplaced {
